@@ -125,6 +125,29 @@ def laneExp : List String → String
   | _ => "bad-op"
 
 open Req.Client.Dump in
+def mkSteps : List String → Option (List ReqStep)
+  | [] => some []
+  | c :: r :: parts :: rest =>
+    match parseOpts c, parseOpts r, decodeList parts with
+    | some co, some ro, some [a, b, cc, d] =>
+      (mkSteps rest).map ((getDumpers (co.map newDumper) (ro.map newDumper), ⟨a, b, cc, d⟩) :: ·)
+    | _, _, _ => none
+  | _ => none
+
+open Req.Client.Dump in
+/-- `c13seq (<client opts|-> <request opts|-> <4 parts>)+` → per writer the bytes it must hold
+after the whole sequence (each request has its own dumpers). -/
+def laneSeq (args : List String) : String :=
+  match mkSteps args with
+  | none => "bad-op"
+  | some steps =>
+    let ws := dedupSorted (steps.flatMap fun s => writersOf s.1)
+    let body := ws.filterMap fun w =>
+      let b := expectedDumpSeq steps w
+      if b.isEmpty then none else some ("w" ++ toString w ++ "=" ++ encodeHex b)
+    if body.isEmpty then "-" else " ".intercalate body
+
+open Req.Client.Dump in
 /-- `c13route <opts>` → `enabled bits` and the resolved writer of each part, after `newDumper`
 (`n`) or for the raw options as `SetCommonDumpOptions` installs them (`r`). -/
 def laneRoute : List String → String
@@ -243,7 +266,8 @@ def lanes : List (String × (List String → String)) := [
   ("c13wrapw", laneWrapW),
   ("c13wrapr", laneWrapR),
   ("c13chan", laneChan),
-  ("c13preset", lanePreset)
+  ("c13preset", lanePreset),
+  ("c13seq", laneSeq)
 ]
 
 end Req.Driver.L.C13
